@@ -51,8 +51,8 @@ def one(data):
     text = data.decode('utf-8', 'surrogateescape')
     if len(text) > 300:
         return
-    # keep C-level big-integer cost bounded: literal exponents / factorial arguments stay small (see DESIGN, C01 limits)
-    if '^' in text or 'FACT' in text or 'POWER' in text or 'E+' in text:
+    # keep C-level big-integer / huge-text cost bounded: literal exponents, factorial arguments, repeat counts and padding widths stay small (see DESIGN, C01 limits)
+    if '^' in text or 'FACT' in text or 'POWER' in text or 'E+' in text or 'REPT' in text or 'BASE' in text or 'DEC2' in text or 'e+' in text:
         import re
         if re.search(r'\d{4,}', text):
             return
